@@ -277,12 +277,18 @@ def solo_call(a5mod, seam, call, want_trace=False, cap=3_000_000):
             'isteps': len(itrace), 'itrace': itrace}
 
 
-def bulk_calls(a5mod, seam, kind, n, seed):
+def bulk_calls(a5mod, seam, kind, n, seed, local=None):
     """Capacity filler: n calls about n distinct pseudo-random cells (or points), unjudged and at full
     speed (monitoring is switched off meanwhile).  It exists to drive size-bounded caches past their
-    capacity, which short histories from a cold process never do."""
+    capacity, which short histories from a cold process never do.  With local = [lon, lat, radius_deg,
+    resolution] the n calls are a *localised* workload instead: points within that radius of one place,
+    indexed at one resolution (kind lonlat_to_cell) or indexed and then looked up again through
+    kind -- the pattern that trains adaptive / locality-driven structures (hints, last-face memos,
+    hit counters), which spread-out fillers keep resetting."""
     import math
     r = random.Random(seed)
+    if local is not None:
+        return _bulk_local(a5mod, seam, kind, n, r, local)
     tool = seam.tool
     if tool is not None:
         mon.set_events(tool, 0)
@@ -305,6 +311,38 @@ def bulk_calls(a5mod, seam, kind, n, seed):
                 raise
             except BaseException:
                 pass
+    finally:
+        if tool is not None:
+            mon.set_events(tool, getattr(seam, 'events', 0))
+    return done
+
+
+def _bulk_local(a5mod, seam, kind, n, r, local):
+    import math
+    lon0, lat0, rad, res = local
+    tool = seam.tool
+    if tool is not None:
+        mon.set_events(tool, 0)
+    done = 0
+    try:
+        while done < n:
+            try:
+                ang = r.random() * 2 * math.pi
+                d = rad * math.sqrt(r.random())
+                lat = max(-90.0, min(90.0, lat0 + d * math.sin(ang)))
+                lon = lon0 + d * math.cos(ang) / max(0.05, math.cos(math.radians(lat0)))
+                c = a5mod.lonlat_to_cell((lon, lat), res)
+                done += 1
+                if kind == 'cell_to_boundary':
+                    a5mod.cell_to_boundary(c, {'segments': 1})
+                    done += 1
+                elif kind == 'cell_to_lonlat':
+                    a5mod.cell_to_lonlat(c)
+                    done += 1
+            except SimAbort:
+                raise
+            except BaseException:
+                done += 1
     finally:
         if tool is not None:
             mon.set_events(tool, getattr(seam, 'events', 0))
@@ -357,7 +395,7 @@ def run_seq_node(a5mod, seam, spec):
         apply_call(a5mod, call['f'], [canon.dec(a) for a in call['a']])
     if spec.get('bulk'):
         b = spec['bulk']
-        bulk_calls(a5mod, seam, b['kind'], b['n'], b['seed'])
+        bulk_calls(a5mod, seam, b['kind'], b['n'], b['seed'], b.get('local'))
     res = [[None] * len(tc) for tc in spec['threads']]
     idx = [0] * len(spec['threads'])
     tsteps = [0] * len(spec['threads'])
@@ -1276,7 +1314,7 @@ def _prepare_threads_node(a5mod, seam, spec):
         warm_out.append(outcome)
     if spec.get('bulk'):
         b = spec['bulk']
-        bulk_calls(a5mod, seam, b['kind'], b['n'], b['seed'])
+        bulk_calls(a5mod, seam, b['kind'], b['n'], b['seed'], b.get('local'))
     return warm_out
 
 
@@ -1497,9 +1535,29 @@ def run_history_node(a5mod, seam, spec):
         kind = op['op']
         oid = op.get('id', i)
         rec = {'i': i, 'id': oid, 'op': kind}
-        if kind in ('call', 'repeat', 'bad_call', 'interrupt', 'alias', 'recycle'):
+        if kind in ('call', 'repeat', 'bad_call', 'interrupt', 'alias', 'recycle', 'refill', 'retype'):
             recycled = None
-            if kind == 'recycle':
+            refilled = None
+            if kind == 'refill':
+                # the caller re-uses the very containers it passed to an earlier call: new content is written
+                # into the same list / dict objects (a buffer kept across a loop), then they are passed again
+                args = [canon.dec(a) for a in op['a']]
+                fname = op['f']
+                refilled = False
+                old = owned.get(op['ref'])
+                if old is not None:
+                    for ai in range(min(len(old[0]), len(args))):
+                        o = old[0][ai]
+                        if type(o) is list and type(args[ai]) in (list, tuple):
+                            o[:] = list(args[ai])
+                            args[ai] = o
+                            refilled = True
+                        elif type(o) is dict and type(args[ai]) is dict:
+                            o.clear()
+                            o.update(args[ai])
+                            args[ai] = o
+                            refilled = True
+            elif kind == 'recycle':
                 # the caller lets go of the objects of an earlier call and builds new argument
                 # containers, which CPython places at the same addresses (object lifetime fault)
                 args = [canon.dec(a) for a in op['a']]
@@ -1571,6 +1629,8 @@ def run_history_node(a5mod, seam, spec):
                         'steps': counter[0], 'landed': landed[0], 'loc': lastloc[0]})
             if recycled is not None:
                 rec['recycled'] = recycled
+            if refilled is not None:
+                rec['refilled'] = refilled
             args = val = None
             if outcome[0] == 'abort':
                 recs.append(rec)
@@ -1579,7 +1639,7 @@ def run_history_node(a5mod, seam, spec):
             clock.jump(op['dt'])
             rec.update({'dt': op['dt']})
         elif kind == 'bulk':
-            rec.update({'n': bulk_calls(a5mod, seam, op['kind'], op['n'], op['seed']), 'kind': op['kind']})
+            rec.update({'n': bulk_calls(a5mod, seam, op['kind'], op['n'], op['seed'], op.get('local')), 'kind': op['kind']})
         elif kind == 'mutate_result':
             ref = op['ref']
             applied = None
